@@ -67,8 +67,32 @@ def gen_case(rng, i, tier):
         words = words[: rng.randint(1, 3)]
     indent = rng.choice(["", " ", "  ", "\t", " \t"])
     depth = rng.randint(0, 3) if rng.random() < 0.9 else rng.randint(4, 8)
-    chained = rng.random() < 0.25
+    # the text in one node, split in the middle into two chained nodes, or split at word boundaries into several
+    # nodes with whitespace on both sides of every seam ("aa ", " b cc")
+    chained = rng.choice([False, False, False, False, True, True, "seams", "seams"])
     return {"w": w, "words": words, "indent": indent, "depth": depth, "chained": chained}
+
+
+def pieces(case):
+    """contents of the text nodes the element's text is held in"""
+    words = case["words"]
+    text = " ".join(words)
+    if case["chained"] == "seams" and len(words) > 1:
+        cut = sorted({1 + (i * 7 + len(words)) % (len(words) - 1) for i in range(min(3, len(words) - 1))})
+        out, start = [], 0
+        for j, c in enumerate(cut + [len(words)]):
+            part = " ".join(words[start:c])
+            if start:
+                part = [" ", "\n", "\t "][j % 3] + part
+            if c < len(words):
+                part += [" ", "  ", "\n"][j % 3]
+            out.append(part)
+            start = c
+        return out
+    if case["chained"] and len(text) > 2:
+        k = len(text) // 2
+        return [text[:k], text[k:]]
+    return [text]
 
 
 def build(case):
@@ -77,11 +101,7 @@ def build(case):
 
     text = " ".join(case["words"])
     p = new_tag_node("p")
-    if case["chained"] and len(text) > 2:
-        k = len(text) // 2
-        p.append_children(text[:k], text[k:])
-    else:
-        p.append_children(text)
+    p.append_children(*pieces(case))
     node = p
     for d in range(case["depth"], 0, -1):
         parent = new_tag_node(f"n{d}")
@@ -141,12 +161,15 @@ def property_oracle(case, out):
 
 
 def boundary_space(case) -> bool:
-    """the text is held in two chained text nodes and a space sits at their boundary"""
-    text = " ".join(case["words"])
-    if not (case.get("chained") and len(text) > 2):
+    """open finding `chained-text-space-at-boundary`: the text is held in several text nodes with whitespace at a seam, and
+    the element would fit the line if that whitespace did not count (the measuring strips it per node, up to two
+    characters per node) although it does not fit in fact"""
+    ps = pieces(case)
+    if len(ps) < 2 or not any(a[-1:].isspace() or b[:1].isspace() for a, b in zip(ps, ps[1:])):
         return False
-    k = len(text) // 2
-    return text[k - 1] == " " or text[k] == " "
+    etext = esc(" ".join(case["words"]))
+    ind, d = case["indent"], case["depth"]
+    return 7 + len(etext) - 2 * len(ps) <= case["w"] - 0
 
 
 def is_known(case) -> str | None:
